@@ -318,9 +318,12 @@ def r19_a(ctx):
         if len(ys) == 1:
             y = ys[0]
             c = y.value
-            if isinstance(c, ast.Call) and isinstance(c.func, ast.Name) and c.func.id == 'Token' and len(c.args) >= 3 \
-                    and not c.keywords:
-                a0, a1, a2 = c.args[:3]
+            if isinstance(c, ast.Call) and isinstance(c.func, ast.Name) and c.func.id == 'Token':
+                kw_ = {k.arg: k.value for k in c.keywords if k.arg}
+                a3 = [c.args[i] if i < len(c.args) else kw_.get(nm_) for i, nm_ in enumerate(('text', 'position', 'category'))]
+            if isinstance(c, ast.Call) and isinstance(c.func, ast.Name) and c.func.id == 'Token' and all(x is not None for x in a3) \
+                    and len(c.args) + len(c.keywords) == 3:
+                a0, a1, a2 = a3
                 good_args = isinstance(a0, ast.Name) and a0.id == ch and isinstance(a1, ast.Name) and a1.id == idx
                 if good_args:
                     # category: a constant CC member, the loop variable of the table scan, a helper that is that scan,
